@@ -1,10 +1,12 @@
 import HL.Driver.C01
+import HL.Driver.Parse
 open Lean
 
 /-- Every property's driver module exports `handle : String → Json → Option Json`;
     add one line here per module. -/
 def handlers : List (String → Json → Option Json) := [
-  HL.Driver.C01.handle
+  HL.Driver.C01.handle,
+  HL.Driver.Parse.handle
 ]
 
 def dispatch (op : String) (j : Json) : Json :=
